@@ -14,3 +14,603 @@ Lemma unknown_attr : forall r k, contains r k = false -> starts_dunder k = false
 Proof.
   intros r k H1 H2. simpl. unfold getattr. rewrite (getname_absent _ _ H1), H2. reflexivity.
 Qed.
+
+(* ------------------------------------------------------------------------------------------------------ *)
+(* induction over nested tokens                                                                              *)
+(* ------------------------------------------------------------------------------------------------------ *)
+Section tok_induction.
+  Variable P : tok -> Prop.
+  Hypothesis HStr : forall s, P (TStr s).
+  Hypothesis HInt : forall z, P (TInt z).
+  Hypothesis HBool : forall b, P (TBool b).
+  Hypothesis HNone : P TNone.
+  Hypothesis HList : forall l, Forall P l -> P (TList l).
+  Hypothesis HPR : forall r, Forall P (toks r) ->
+                             Forall (fun kv => Forall (fun vp => P (fst vp)) (snd kv)) (dict r) -> P (TPR r).
+  Fixpoint tok_ind' (t : tok) : P t :=
+    match t with
+    | TStr s => HStr s
+    | TInt z => HInt z
+    | TBool b => HBool b
+    | TNone => HNone
+    | TList l => HList l ((fix go (l : list tok) : Forall P l :=
+                             match l with [] => Forall_nil _ | x :: t => Forall_cons _ (tok_ind' x) (go t) end) l)
+    | TPR r =>
+      match r with
+      | PR tl d an nm md =>
+        HPR (PR tl d an nm md)
+            ((fix go (l : list tok) : Forall P l :=
+                match l with [] => Forall_nil _ | x :: t => Forall_cons _ (tok_ind' x) (go t) end) tl)
+            ((fix god (d : list (str * list (tok * Z))) : Forall (fun kv => Forall (fun vp => P (fst vp)) (snd kv)) d :=
+                match d with
+                | [] => Forall_nil _
+                | kv :: d' =>
+                  Forall_cons _
+                    ((fix goo (o : list (tok * Z)) : Forall (fun vp => P (fst vp)) o :=
+                        match o with
+                        | [] => Forall_nil _
+                        | vp :: o' => Forall_cons _ (tok_ind' (fst vp)) (goo o')
+                        end) (snd kv))
+                    (god d')
+                end) d)
+      end
+    end.
+End tok_induction.
+
+(* ------------------------------------------------------------------------------------------------------ *)
+(* naturality of the Python list primitives                                                                  *)
+(* ------------------------------------------------------------------------------------------------------ *)
+Section naturality.
+  Context {A B : Type} (f : A -> B).
+
+  Lemma llen_map l : llen (map f l) = llen l.
+  Proof. unfold llen. now rewrite map_length. Qed.
+
+  Lemma nth_error_map' l j : nth_error (map f l) j = option_map f (nth_error l j).
+  Proof. revert j; induction l; destruct j; simpl; auto. Qed.
+
+  Lemma py_getitem_map l i : py_getitem (map f l) i = option_map f (py_getitem l i).
+  Proof. unfold py_getitem. rewrite llen_map. destruct (norm_index i (llen l)); [apply nth_error_map'|reflexivity]. Qed.
+
+  Lemma remove_nth_map l j : remove_nth (map f l) j = map f (remove_nth l j).
+  Proof. unfold remove_nth. now rewrite map_app, firstn_map, skipn_map. Qed.
+
+  Lemma set_nth_map l j x : set_nth (map f l) j (f x) = map f (set_nth l j x).
+  Proof. unfold set_nth. rewrite map_app, firstn_map, skipn_map. reflexivity. Qed.
+
+  Lemma py_delitem_map l i : py_delitem (map f l) i = option_map (map f) (py_delitem l i).
+  Proof. unfold py_delitem. rewrite llen_map. destruct (norm_index i (llen l)); simpl; [now rewrite remove_nth_map|reflexivity]. Qed.
+
+  Lemma py_setitem_map l i x : py_setitem (map f l) i (f x) = option_map (map f) (py_setitem l i x).
+  Proof. unfold py_setitem. rewrite llen_map. destruct (norm_index i (llen l)); simpl; [now rewrite set_nth_map|reflexivity]. Qed.
+
+  Lemma py_insert_map l i x : py_insert (map f l) i (f x) = map f (py_insert l i x).
+  Proof. unfold py_insert. rewrite llen_map, map_app, firstn_map, skipn_map. reflexivity. Qed.
+
+  Lemma select_map l idxs : select (map f l) idxs = map f (select l idxs).
+  Proof.
+    unfold select. induction idxs as [|i t IH]; simpl; [reflexivity|].
+    rewrite map_app, IH, nth_error_map'. destruct (nth_error l (Z.to_nat i)); reflexivity.
+  Qed.
+
+  Lemma del_idx_map idxs l : forall k, del_idx k idxs (map f l) = map f (del_idx k idxs l).
+  Proof. induction l as [|x t IH]; intros k; simpl; [reflexivity|]. destruct (existsb (Z.eqb k) idxs); simpl; now rewrite IH. Qed.
+
+  Lemma assign_at_map idxs : forall l vs, assign_at (map f l) idxs (map f vs) = map f (assign_at l idxs vs).
+  Proof.
+    induction idxs as [|i t IH]; intros l vs; destruct vs as [|v vs]; simpl; try reflexivity.
+    now rewrite set_nth_map, IH.
+  Qed.
+
+  Lemma py_getslice_map l s : py_getslice (map f l) s = option_map (map f) (py_getslice l s).
+  Proof.
+    unfold py_getslice. rewrite llen_map. destruct (slice_indices s (llen l)) as [[[a b] c]|]; simpl; [now rewrite select_map|reflexivity].
+  Qed.
+
+  Lemma py_delslice_map l s : py_delslice (map f l) s = option_map (map f) (py_delslice l s).
+  Proof.
+    unfold py_delslice. rewrite llen_map. destruct (slice_indices s (llen l)) as [[[a b] c]|]; simpl; [now rewrite del_idx_map|reflexivity].
+  Qed.
+
+  Lemma py_setslice_map l s vs : py_setslice (map f l) s (map f vs) = option_map (map f) (py_setslice l s vs).
+  Proof.
+    unfold py_setslice. rewrite llen_map. destruct (slice_indices s (llen l)) as [[[a b] c]|]; simpl; [|reflexivity].
+    destruct (c =? 1).
+    - simpl. now rewrite !map_app, firstn_map, skipn_map.
+    - rewrite map_length. destruct (Nat.eqb _ _); simpl; [now rewrite assign_at_map|reflexivity].
+  Qed.
+End naturality.
+
+(* ------------------------------------------------------------------------------------------------------ *)
+(* the ordered dict under a map on the values                                                                *)
+(* ------------------------------------------------------------------------------------------------------ *)
+Definition dmap {V W} (g : V -> W) (d : list (str * V)) : list (str * W) := map (fun kv => (fst kv, g (snd kv))) d.
+
+Lemma dict_get_dmap {V W} (g : V -> W) d k : dict_get (dmap g d) k = option_map g (dict_get d k).
+Proof. induction d as [|[k' v] d IH]; simpl; [reflexivity|]. destruct (str_eqb k' k); [reflexivity|apply IH]. Qed.
+Lemma dict_set_dmap {V W} (g : V -> W) d k v : dict_set (dmap g d) k (g v) = dmap g (dict_set d k v).
+Proof. induction d as [|[k' v'] d IH]; simpl; [reflexivity|]. destruct (str_eqb k' k); simpl; [reflexivity|now rewrite IH]. Qed.
+Lemma dict_del_dmap {V W} (g : V -> W) d k : dict_del (dmap g d) k = dmap g (dict_del d k).
+Proof. induction d as [|[k' v'] d IH]; simpl; [reflexivity|]. destruct (str_eqb k' k); simpl; [reflexivity|now rewrite IH]. Qed.
+Lemma dmap_keys {V W} (g : V -> W) d : map fst (dmap g d) = map fst d.
+Proof. unfold dmap. rewrite map_map. reflexivity. Qed.
+
+(* the name view of a concrete name table *)
+Definition occ_view (occ : list (tok * Z)) : list vtok := map (fun vp => tview (fst vp)) occ.
+Definition dict_view (d : list (str * list (tok * Z))) : list (str * list vtok) := dmap occ_view d.
+
+Lemma view_eq r : view r = AV (map tview (toks r)) (dict_view (dict r)) (allnames r).
+Proof. reflexivity. Qed.
+
+Lemma dict_view_map_positions h d : dict_view (map_positions h d) = dict_view d.
+Proof.
+  unfold dict_view, dmap, map_positions. rewrite map_map. apply map_ext. intros [k occ]. simpl.
+  unfold occ_view. rewrite map_map. reflexivity.
+Qed.
+
+(* ------------------------------------------------------------------------------------------------------ *)
+(* every concrete operation, seen through `view`                                                             *)
+(* ------------------------------------------------------------------------------------------------------ *)
+Lemma occ_view_app o1 o2 : occ_view (o1 ++ o2) = occ_view o1 ++ occ_view o2.
+Proof. unfold occ_view. apply map_app. Qed.
+
+Lemma dict_get_view d k : dict_get (dict_view d) k = option_map occ_view (dict_get d k).
+Proof. apply dict_get_dmap. Qed.
+
+Lemma contains_view r k : contains r k = mm_contains (view r) k.
+Proof. unfold contains, mm_contains. simpl. fold (dict_view (dict r)). rewrite dict_get_view. destruct (dict_get (dict r) k); reflexivity. Qed.
+
+Lemma getname_view r k : option_map tview (pr_getname r k) = mm_lookup (view r) k.
+Proof.
+  unfold pr_getname, mm_lookup. simpl. fold (dict_view (dict r)). rewrite dict_get_view.
+  destruct (dict_get (dict r) k) as [occ|]; simpl; [|reflexivity].
+  destruct (name_in k (allnames r)); simpl.
+  - unfold occ_view. rewrite map_map. reflexivity.
+  - unfold occ_view. rewrite <- map_rev. destruct (rev occ) as [|[v p] t]; reflexivity.
+Qed.
+
+Lemma lookup_present_view r k : tview (lookup_present r k) = mm_lookup_present (view r) k.
+Proof.
+  unfold lookup_present, mm_lookup_present. rewrite <- getname_view. destruct (pr_getname r k); reflexivity.
+Qed.
+
+Lemma setname_view r k v p : view (pr_setname r k v p) = mm_add (view r) k (tview v).
+Proof.
+  change (view (pr_setname r k v p)) with
+    (AV (map tview (toks r))
+        (dict_view (dict_set (dict r) k (match dict_get (dict r) k with Some l => l | None => [] end ++ [(v, p)])))
+        (allnames r)).
+  change (mm_add (view r) k (tview v)) with
+    (AV (map tview (toks r))
+        (dict_set (dict_view (dict r)) k (match dict_get (dict_view (dict r)) k with Some vs => vs | None => [] end ++ [tview v]))
+        (allnames r)).
+  f_equal. rewrite dict_get_view. unfold dict_view. rewrite <- dict_set_dmap. f_equal. rewrite occ_view_app.
+  destruct (dict_get (dict r) k); reflexivity.
+Qed.
+
+Lemma bool_view r : pr_bool r = spec_bool (view r).
+Proof. unfold pr_bool, spec_bool. simpl. destruct (toks r), (dict r); reflexivity. Qed.
+
+Lemma haskeys_view r : pr_haskeys r = negb (match av_map (view r) with [] => true | _ => false end).
+Proof. unfold pr_haskeys. simpl. destruct (dict r); reflexivity. Qed.
+
+Lemma fold_setname_view items : forall self,
+  view (fold_left (fun acc (kvp : str * tok * Z) => match kvp with (k, v, p) => pr_setname acc k v p end) items self)
+  = fold_left (fun acc kv => mm_add acc (fst kv) (snd kv))
+              (map (fun kvp : str * tok * Z => match kvp with (k, v, p) => (k, tview v) end) items) (view self).
+Proof.
+  induction items as [|[[k v] p] t IH]; intros self; simpl; [reflexivity|].
+  rewrite IH, setname_view. reflexivity.
+Qed.
+
+Lemma iadd_items_view (h : Z -> Z) d :
+  map (fun kvp : str * tok * Z => match kvp with (k, v, p) => (k, tview v) end)
+      (flat_map (fun kv : str * list (tok * Z) => map (fun vp => (fst kv, fst vp, h (snd vp))) (snd kv)) d)
+  = flat_map (fun kv : str * list vtok => map (fun v => (fst kv, v)) (snd kv)) (dict_view d).
+Proof.
+  induction d as [|[k occ] d IH]; simpl; [reflexivity|].
+  rewrite map_app, IH. f_equal. unfold occ_view. rewrite !map_map. reflexivity.
+Qed.
+
+Lemma view_PR t d an nm md : view (PR t d an nm md) = AV (map tview t) (dict_view d) an.
+Proof. reflexivity. Qed.
+
+Lemma iadd_view a b : view (pr_iadd a b) = spec_iadd (view a) (view b).
+Proof.
+  unfold pr_iadd, spec_iadd. rewrite <- bool_view. destruct (negb (pr_bool b)); [reflexivity|].
+  cbv zeta. rewrite view_PR.
+  match goal with |- context [dict_view (dict ?s)] => set (self1 := s) end.
+  assert (Hv : view self1 =
+     fold_left (fun acc kv => mm_add acc (fst kv) (snd kv))
+       (flat_map (fun kv : str * list vtok => map (fun v => (fst kv, v)) (snd kv)) (av_map (view b))) (view a)).
+  { unfold self1. rewrite fold_setname_view.
+    change (av_map (view b)) with (dict_view (dict b)). rewrite <- iadd_items_view with (h := fun a0 : Z => if a0 <? 0 then Z.of_nat (length (toks a)) else a0 + Z.of_nat (length (toks a))).
+    reflexivity. }
+  rewrite <- Hv. rewrite map_app. reflexivity.
+Qed.
+
+Lemma copy_view r : view (pr_copy r) = spec_copy (view r).
+Proof. reflexivity. Qed.
+
+Lemma add_view a b : view (add a b) = spec_add (view a) (view b).
+Proof. unfold add, spec_add. now rewrite iadd_view, copy_view. Qed.
+
+(* as_list / as_dict / deepcopy : nested induction *)
+Lemma as_list_tok_view : forall t, tview (tok_as_list t) = v_as_list (tview t).
+Proof.
+  induction t using tok_ind'; simpl; try reflexivity.
+  f_equal. rewrite !map_map. apply map_ext_Forall. exact H.
+Qed.
+
+Lemma as_list_view r : map tview (pr_as_list r) = map v_as_list (av_list (view r)).
+Proof. unfold pr_as_list. simpl. rewrite !map_map. apply map_ext. intros. apply as_list_tok_view. Qed.
+
+Lemma last_map {A B} (f : A -> B) l d : last (map f l) (f d) = f (last l d).
+Proof. induction l as [|x [|y t] IH]; simpl in *; auto. Qed.
+
+Lemma to_item_view : forall t, dview (to_item t) = v_to_item (tview t).
+Proof.
+  induction t using tok_ind'; try reflexivity.
+  destruct r as [tl d an nm md]. simpl in *.
+  destruct d as [|kv0 d'].
+  - simpl. f_equal. rewrite !map_map. apply map_ext_Forall. exact H.
+  - remember (kv0 :: d') as d. simpl.
+    assert (Hd : forall d, Forall (fun kv : str * list (tok * Z) => Forall (fun vp => dview (to_item (fst vp)) = v_to_item (tview (fst vp))) (snd kv)) d ->
+      map (fun kv : str * dval => (fst kv, dview (snd kv)))
+        (map (fun kv : str * list (tok * Z) =>
+           (fst kv, if name_in (fst kv) an then DList (map (fun vp => to_item (fst vp)) (snd kv))
+                    else last (map (fun vp => to_item (fst vp)) (snd kv)) (DTok TNone))) d)
+      = map (fun kv : str * list vtok =>
+           (fst kv, if name_in (fst kv) an then VDList (map v_to_item (snd kv)) else last (map v_to_item (snd kv)) (VDTok VNone)))
+          (map (fun kv => (fst kv, map (fun vp => tview (fst vp)) (snd kv))) d)).
+    { clear. intros d Hd. rewrite !map_map. apply map_ext_Forall. eapply Forall_impl; [|exact Hd].
+      intros [k occ] Hocc. simpl in *. f_equal.
+      assert (E : map dview (map (fun vp : tok * Z => to_item (fst vp)) occ) = map v_to_item (map (fun vp => tview (fst vp)) occ)).
+      { rewrite !map_map. apply map_ext_Forall. exact Hocc. }
+      destruct (name_in k an).
+      - simpl. f_equal. exact E.
+      - rewrite <- E. change (VDTok VNone) with (dview (DTok TNone)). rewrite last_map. reflexivity. }
+    subst d. specialize (Hd _ H0). simpl in Hd. simpl. f_equal. exact Hd.
+Qed.
+
+Lemma as_dict_view r : map (fun kv => (fst kv, dview (snd kv))) (as_dict r) = spec_as_dict (view r).
+Proof.
+  unfold as_dict, spec_as_dict. simpl. rewrite !map_map. apply map_ext. intros [k occ]. simpl. f_equal.
+  assert (E : map dview (map (fun vp : tok * Z => to_item (fst vp)) occ) = map v_to_item (map (fun vp => tview (fst vp)) occ)).
+  { rewrite !map_map. apply map_ext. intros. apply to_item_view. }
+  destruct (name_in k (allnames r)).
+  - simpl. f_equal. exact E.
+  - rewrite <- E. change (VDTok VNone) with (dview (DTok TNone)). rewrite last_map. reflexivity.
+Qed.
+
+Lemma names_union_nil_l an : names_union [] an = an.
+Proof. unfold names_union. simpl. induction an as [|x t IH]; simpl; [reflexivity|]. now rewrite IH. Qed.
+
+Lemma deepcopy_tok_view : forall t, tview (tok_deepcopy t) = tview t.
+Proof.
+  induction t using tok_ind'; simpl; try reflexivity.
+  - f_equal. rewrite map_map. apply map_ext_Forall. eapply Forall_impl; [|exact H].
+    intros a Ha. destruct a; try reflexivity. exact Ha.
+  - rewrite names_union_nil_l. f_equal. rewrite map_map. apply map_ext_Forall. exact H.
+Qed.
+
+Lemma deepcopy_view r : view (deepcopy r) = spec_copy (view r).
+Proof.
+  unfold deepcopy, spec_copy. rewrite view_PR. simpl. f_equal.
+  rewrite map_map. apply map_ext. intros. apply deepcopy_tok_view.
+Qed.
+
+(* ------------------------------------------------------------------------------------------------------ *)
+(* C10: per-operation refinement                                                                             *)
+(* ------------------------------------------------------------------------------------------------------ *)
+Lemma view_with_toks r l : view (with_toks r l) = with_list (view r) (map tview l).
+Proof. reflexivity. Qed.
+
+Lemma slice_indices_nostep lo hi len : exists a b, slice_indices (Slice lo hi None) len = Some (a, b, 1).
+Proof. unfold slice_indices. simpl. eauto. Qed.
+
+Lemma delitem_int_view r i :
+  match delitem_int r i with
+  | Some r' => py_delitem (av_list (view r)) i = Some (av_list (view r')) /\ view r' = with_list (view r) (av_list (view r'))
+  | None => py_delitem (av_list (view r)) i = None
+  end.
+Proof.
+  unfold delitem_int. simpl av_list. rewrite py_delitem_map.
+  destruct (py_delitem (toks r) i) as [l'|]; cbn [option_map]; [|reflexivity].
+  cbv zeta.
+  destruct (slice_indices_nostep (Some (if i <? 0 then i + llen (toks r) else i))
+                                 (Some ((if i <? 0 then i + llen (toks r) else i) + 1)) (llen (toks r))) as (a & b & E).
+  rewrite E. split; [reflexivity|]. rewrite view_PR. unfold with_list. simpl. rewrite dict_view_map_positions. reflexivity.
+Qed.
+
+Lemma delitem_slice_view r s :
+  match delitem_slice r s with
+  | Some r' => py_delslice (av_list (view r)) s = Some (av_list (view r')) /\ view r' = with_list (view r) (av_list (view r'))
+  | None => py_delslice (av_list (view r)) s = None
+  end.
+Proof.
+  unfold delitem_slice. simpl av_list. rewrite py_delslice_map. unfold py_delslice.
+  destruct (slice_indices s (llen (toks r))) as [[[a b] c]|]; simpl; [|reflexivity].
+  split; [reflexivity|]. rewrite view_PR. unfold with_list. simpl. rewrite dict_view_map_positions. reflexivity.
+Qed.
+
+Lemma delitem_name_view r k :
+  match delitem_name r k with
+  | Some r' => mm_contains (view r) k = true /\ view r' = mm_del (view r) k
+  | None => mm_contains (view r) k = false
+  end.
+Proof.
+  unfold delitem_name. rewrite <- contains_view. destruct (contains r k); [|reflexivity].
+  split; [reflexivity|]. unfold with_dict, mm_del. rewrite view_PR.
+  change (av_map (view r)) with (dict_view (dict r)). unfold dict_view. rewrite dict_del_dmap. reflexivity.
+Qed.
+
+Lemma insert_view r i v : view (insert r i v) = with_list (view r) (py_insert (av_list (view r)) i (tview v)).
+Proof.
+  unfold insert. rewrite view_PR. unfold with_list. simpl. rewrite dict_view_map_positions, py_insert_map. reflexivity.
+Qed.
+
+Lemma pop_refines r a0 extra kwd badkw :
+  spec_pop (view r) a0 (map tview extra) (option_map tview kwd) badkw
+  = (view (fst (pop r a0 extra kwd badkw)), result_view (snd (pop r a0 extra kwd badkw))).
+Proof.
+  unfold pop, spec_pop. destruct badkw; [reflexivity|].
+  set (a0' := match a0 with Some a => a | None => PKInt (-1) end).
+  assert (Hrest : match (match option_map tview kwd with Some d => [d] | None => map tview extra end) with [] => true | _ => false end
+                  = match (match kwd with Some d => [d] | None => extra end) with [] => true | _ => false end).
+  { destruct kwd; simpl; [reflexivity|]. destruct extra; reflexivity. }
+  destruct a0' as [i|k].
+  - (* list semantics *)
+    unfold getitem_int. simpl av_list. rewrite py_getitem_map.
+    pose proof (delitem_int_view r i) as Hd. simpl av_list in Hd.
+    destruct (py_getitem (toks r) i) as [v|]; simpl.
+    + destruct (delitem_int r i) as [r'|].
+      * destruct Hd as [Hd1 Hd2]. rewrite Hd1. simpl. rewrite Hd2. reflexivity.
+      * rewrite Hd. reflexivity.
+    + destruct (py_delitem (map tview (toks r)) i); reflexivity.
+  - (* dict semantics when the name is present or no default was given *)
+    rewrite <- contains_view.
+    assert (Hls : (match (match option_map tview kwd with Some d => [d] | None => map tview extra end) with [] => true | _ :: _ => contains r k end)
+                = (match (match kwd with Some d => [d] | None => extra end) with [] => true | _ :: _ => contains r k end)).
+    { destruct kwd; simpl; [reflexivity|]. destruct extra; reflexivity. }
+    rewrite Hls. clear Hls.
+    destruct (match (match kwd with Some d => [d] | None => extra end) with [] => true | _ :: _ => contains r k end).
+    + unfold getitem_name. rewrite <- getname_view.
+      pose proof (delitem_name_view r k) as Hd. rewrite <- contains_view in Hd.
+      destruct (pr_getname r k) as [v|]; simpl.
+      * destruct (delitem_name r k) as [r'|].
+        -- destruct Hd as [Hc Hv]. rewrite Hc. cbn [fst snd]. rewrite Hv. reflexivity.
+        -- rewrite Hd. reflexivity.
+      * reflexivity.
+    + destruct kwd; simpl; [reflexivity|]. destruct extra; reflexivity.
+Qed.
+
+Lemma op_refines : forall r o, observes_views o = true ->
+  spec_op (view r) o = (view (fst (apply_op r o)), result_view (snd (apply_op r o))).
+Proof.
+  intros r o Ho. destruct o; try discriminate Ho; clear Ho; cbn [apply_op spec_op fst snd].
+  - (* getint *) unfold getitem_int. simpl av_list. rewrite py_getitem_map. destruct (py_getitem (toks r) i); reflexivity.
+  - (* getslice *) unfold getitem_slice. simpl av_list. rewrite py_getslice_map. destruct (py_getslice (toks r) s); reflexivity.
+  - (* getname *) unfold getitem_name. rewrite <- getname_view. destruct (pr_getname r k); reflexivity.
+  - (* setint *) unfold setitem_int. simpl av_list. rewrite py_setitem_map. destruct (py_setitem (toks r) i v); reflexivity.
+  - (* setslice *) unfold setitem_slice. simpl av_list. rewrite py_setslice_map. destruct (py_setslice (toks r) s vs); reflexivity.
+  - (* setname *) unfold setitem_name. now rewrite setname_view.
+  - unfold setitem_name_off. now rewrite setname_view.
+  - (* delint *) pose proof (delitem_int_view r i) as H. destruct (delitem_int r i) as [r'|]; cbn [opt_state fst snd].
+    + destruct H as [H1 H2]. rewrite H1. cbn [sp_state]. now rewrite <- H2.
+    + rewrite H. reflexivity.
+  - (* delslice *) pose proof (delitem_slice_view r s) as H. destruct (delitem_slice r s) as [r'|]; cbn [opt_state fst snd].
+    + destruct H as [H1 H2]. rewrite H1. cbn [sp_state]. now rewrite <- H2.
+    + rewrite H. reflexivity.
+  - (* delname *) pose proof (delitem_name_view r k) as H. destruct (delitem_name r k) as [r'|]; cbn [opt_state fst snd].
+    + destruct H as [H1 H2]. now rewrite H1, H2.
+    + now rewrite H.
+  - (* contains *) now rewrite contains_view.
+  - (* len *) unfold len. simpl av_list. now rewrite llen_map.
+  - (* bool *) now rewrite bool_view.
+  - reflexivity.
+  - (* reversed *) unfold reversed. simpl. now rewrite map_rev.
+  - (* keys *) unfold keys. simpl. rewrite map_map. reflexivity.
+  - (* values *) unfold values, keys. simpl. rewrite !map_map. f_equal. f_equal. apply map_ext. intros. now rewrite lookup_present_view.
+  - (* items *) unfold items, keys. simpl. rewrite !map_map. f_equal. f_equal. apply map_ext. intros. simpl. now rewrite lookup_present_view.
+  - (* haskeys *) now rewrite haskeys_view.
+  - (* pop *) apply pop_refines.
+  - (* get *) unfold get. rewrite <- contains_view. destruct (contains r k); simpl; [now rewrite lookup_present_view|reflexivity].
+  - (* insert *) now rewrite insert_view.
+  - (* append *) unfold append. rewrite view_with_toks, map_app. reflexivity.
+  - unfold extend_list. rewrite view_with_toks, map_app. reflexivity.
+  - unfold extend_pr. now rewrite iadd_view.
+  - reflexivity.
+  - (* getattr *) unfold getattr. rewrite <- getname_view. destruct (pr_getname r k); simpl; [reflexivity|]. destruct (starts_dunder k); reflexivity.
+  - (* add *) simpl. now rewrite add_view.
+  - unfold iadd. now rewrite iadd_view.
+  - reflexivity.
+  - simpl. now rewrite add_view.
+  - (* as_list *) simpl. unfold as_list. now rewrite as_list_view.
+  - simpl. now rewrite as_dict_view.
+  - reflexivity.
+  - simpl. now rewrite deepcopy_view.
+  - reflexivity.
+Qed.
+
+(* ------------------------------------------------------------------------------------------------------ *)
+(* C10: histories, invisibility of stored positions                                                          *)
+(* ------------------------------------------------------------------------------------------------------ *)
+Lemma history_refines : forall ops r, forallb observes_views ops = true ->
+  spec_run (view r) ops = (map result_view (fst (run_ops r ops)), view (snd (run_ops r ops))).
+Proof.
+  induction ops as [|o ops IH]; intros r H; simpl; [reflexivity|].
+  simpl in H. apply andb_prop in H. destruct H as [Ho Hops].
+  rewrite (op_refines r o Ho). destruct (apply_op r o) as [r1 res]. cbn [fst snd].
+  rewrite (IH r1 Hops). destruct (run_ops r1 ops) as [rs rf]. reflexivity.
+Qed.
+
+Lemma positions_invisible : forall r1 r2 ops, view r1 = view r2 -> forallb observes_views ops = true ->
+  map result_view (fst (run_ops r1 ops)) = map result_view (fst (run_ops r2 ops)) /\
+  view (snd (run_ops r1 ops)) = view (snd (run_ops r2 ops)).
+Proof.
+  intros r1 r2 ops Hv Ho.
+  pose proof (history_refines ops r1 Ho) as H1. pose proof (history_refines ops r2 Ho) as H2.
+  rewrite Hv in H1. rewrite H1 in H2. split; [exact (f_equal fst H2)|exact (f_equal snd H2)].
+Qed.
+
+(* operations that touch list items only *)
+Definition list_item_op (o : op) : bool :=
+  match o with
+  | ODelInt _ | ODelSlice _ | OInsert _ _ | OAppend _ | OExtendList _ | OSetInt _ _ | OSetSlice _ _ => true
+  | OPop None _ _ _ | OPop (Some (PKInt _)) _ _ _ => true
+  | _ => false
+  end.
+
+Lemma sp_state_names a o e : av_map (fst (sp_state a o e)) = av_map a /\ av_all (fst (sp_state a o e)) = av_all a.
+Proof. destruct o; simpl; auto. Qed.
+
+Lemma list_item_op_keeps_names : forall r o, list_item_op o = true ->
+  av_map (view (fst (apply_op r o))) = av_map (view r) /\ av_all (view (fst (apply_op r o))) = av_all (view r).
+Proof.
+  intros r o H.
+  assert (Ho : observes_views o = true) by (destruct o; try reflexivity; discriminate).
+  pose proof (op_refines r o Ho) as E.
+  assert (Hs : av_map (fst (spec_op (view r) o)) = av_map (view r) /\ av_all (fst (spec_op (view r) o)) = av_all (view r)).
+  { generalize (view r). intros a. destruct o; try discriminate H; cbn [spec_op]; try apply sp_state_names; try (split; reflexivity).
+    unfold spec_pop. destruct badkw; [split; reflexivity|].
+    destruct a0 as [[i|k]|]; try discriminate H.
+    - cbn. destruct (py_getitem (av_list a) i), (py_delitem (av_list a) i); split; reflexivity.
+    - cbn. destruct (py_getitem (av_list a) (-1)), (py_delitem (av_list a) (-1)); split; reflexivity. }
+  rewrite E in Hs. exact Hs.
+Qed.
+
+(* get_name() is the one method through which a stored position can be seen *)
+Definition gn_r1 : pres := PR [TStr [97%N]] [([107%N], [(TStr [118%N], 0)])] [] None true.
+Definition gn_r2 : pres := PR [TStr [97%N]] [([107%N], [(TStr [118%N], 1)])] [] None true.
+Lemma get_name_reads_positions : view gn_r1 = view gn_r2 /\ rname gn_r1 = rname gn_r2 /\ get_name gn_r1 <> get_name gn_r2.
+Proof. repeat split. vm_compute. discriminate. Qed.
+(* both are reachable: r1 = PR(['a']); r1['k'] = 'v'   and   r2 = PR(['z','a']); r2 += PR(['v'],'k',asList=False); del r2[-1]; del r2[0] *)
+Lemma gn_r2_reachable :
+  snd (run_ops (pr_of_list [TStr [122%N]; TStr [97%N]])
+               [OIAdd (pr_init (RList [TStr [118%N]]) (Some [107%N]) false true); ODelInt (-1); ODelInt 0])
+  = PR [TStr [97%N]] [([107%N], [(TStr [118%N], 1)])] [] None true.
+Proof. vm_compute. reflexivity. Qed.
+
+(* lookup forms agree: r[name], getattr, get and as_dict are functions of the same multimap entry *)
+Lemma lookup_forms_agree : forall r k, contains r k = true ->
+  exists v, getitem_name r k = Some v /\ getattr r k = RTok v /\ (forall d, get r k d = v) \/
+            (* an empty occurrence list (not well-formed) *) pr_getname r k = None.
+Proof.
+  intros r k Hc. destruct (pr_getname r k) as [v|] eqn:E.
+  - exists v. left. repeat split.
+    + exact E.
+    + unfold getattr. now rewrite E.
+    + intros d. unfold get, lookup_present. now rewrite Hc, E.
+  - exists TNone. right. reflexivity.
+Qed.
+
+Lemma as_dict_entry : forall r k, In k (keys r) ->
+  In (k, v_to_item (mm_lookup_present (view r) k)) (spec_as_dict (view r)) \/ mm_lookup (view r) k = None.
+Proof.
+  intros r k Hin. unfold spec_as_dict, mm_lookup_present, mm_lookup.
+  change (av_map (view r)) with (dict_view (dict r)). change (av_all (view r)) with (allnames r).
+  unfold keys in Hin. induction (dict r) as [|[k' occ] d IH]; [destruct Hin|].
+  simpl. destruct (str_eqb k' k) eqn:Ek.
+  - assert (k' = k) as ->.
+    { clear -Ek. revert k Ek. induction k' as [|x a IH]; destruct k as [|y b]; simpl; intros; try discriminate; [reflexivity|].
+      apply andb_prop in Ek. destruct Ek as [E1 E2]. apply N.eqb_eq in E1. subst. f_equal. now apply IH. }
+    destruct (name_in k (allnames r)).
+    + left. left. reflexivity.
+    + destruct (occ_view occ) as [|v0 vs] eqn:Eo using rev_ind; [right; reflexivity|].
+      left. left. rewrite rev_app_distr. simpl. f_equal. rewrite map_app. simpl.
+      clear. induction (map v_to_item vs); simpl; auto. destruct l; auto.
+  - simpl in Hin. destruct Hin as [->|Hin].
+    + exfalso. clear -Ek. induction k as [|x a IH]; simpl in Ek; [discriminate|]. rewrite N.eqb_refl in Ek. simpl in Ek. auto.
+    + destruct (IH Hin) as [H|H]; [left; right; exact H|right; exact H].
+Qed.
+
+(* ------------------------------------------------------------------------------------------------------ *)
+(* C11 (value level): copies and pickles preserve the views; concatenation                                   *)
+(* ------------------------------------------------------------------------------------------------------ *)
+Lemma spec_copy_id a : spec_copy a = a.
+Proof. destruct a. unfold spec_copy. simpl. now rewrite names_union_nil_l. Qed.
+
+Lemma copy_same_view r : view (copy r) = view r.
+Proof. unfold copy. now rewrite copy_view, spec_copy_id. Qed.
+Lemma deepcopy_same_view r : view (deepcopy r) = view r.
+Proof. now rewrite deepcopy_view, spec_copy_id. Qed.
+Lemma pickle_same_view r : view (pickle_roundtrip r) = view r /\ rname (pickle_roundtrip r) = rname r.
+Proof. split; reflexivity. Qed.
+
+(* what C11 observes: as_list(), as_dict(), keys, len, dump() — all functions of the views *)
+Definition observations (r : pres) :=
+  (map tview (as_list r), map (fun kv => (fst kv, dview (snd kv))) (as_dict r), keys r, len r, pr_dump r, pr_str r, pr_repr r).
+Definition spec_observations (a : aview) :=
+  (map v_as_list (av_list a), spec_as_dict a, map fst (av_map a), llen (av_list a),
+   (let t := vpr a in vdump (fuel_of t) 0 t), py_str (vpr a), py_repr (vpr a)).
+Lemma observations_of_view r : observations r = spec_observations (view r).
+Proof.
+  unfold observations, spec_observations, as_list. rewrite as_list_view, as_dict_view.
+  unfold keys, len. change (av_map (view r)) with (dict_view (dict r)). unfold dict_view. rewrite dmap_keys.
+  change (av_list (view r)) with (map tview (toks r)). rewrite llen_map. reflexivity.
+Qed.
+Lemma same_view_same_observations r1 r2 : view r1 = view r2 -> observations r1 = observations r2.
+Proof. intros H. now rewrite !observations_of_view, H. Qed.
+
+(* concatenation *)
+Lemma fold_mm_add_list items : forall a,
+  av_list (fold_left (fun acc (kv : str * vtok) => mm_add acc (fst kv) (snd kv)) items a) = av_list a /\
+  av_all (fold_left (fun acc (kv : str * vtok) => mm_add acc (fst kv) (snd kv)) items a) = av_all a.
+Proof. induction items as [|kv t IH]; intros a; simpl; [auto|]. destruct (IH (mm_add a (fst kv) (snd kv))) as [H1 H2]. rewrite H1, H2. auto. Qed.
+
+Lemma spec_bool_false a : spec_bool a = false -> av_list a = [] /\ av_map a = [].
+Proof. unfold spec_bool. destruct (av_list a), (av_map a); simpl; intros; try discriminate; auto. Qed.
+
+Lemma spec_iadd_list a b : av_list (spec_iadd a b) = av_list a ++ av_list b.
+Proof.
+  unfold spec_iadd. destruct (spec_bool b) eqn:E; simpl.
+  - now rewrite (proj1 (fold_mm_add_list _ a)).
+  - destruct (spec_bool_false _ E) as [-> _]. now rewrite app_nil_r.
+Qed.
+Lemma spec_add_list a b : av_list (spec_add a b) = av_list a ++ av_list b.
+Proof. unfold spec_add. rewrite spec_iadd_list. reflexivity. Qed.
+
+Lemma add_list_view a b : map tview (toks (add a b)) = map tview (toks a) ++ map tview (toks b).
+Proof. pose proof (f_equal av_list (add_view a b)) as H. rewrite spec_add_list in H. exact H. Qed.
+
+Lemma add_assoc_list a b c : av_list (view (add (add a b) c)) = av_list (view (add a (add b c))).
+Proof. rewrite !add_view, !spec_add_list. now rewrite app_assoc. Qed.
+
+Definition spec_empty : aview := AV [] [] [].
+Lemma iadd_empty_r a : spec_iadd a spec_empty = a.
+Proof. reflexivity. Qed.
+Lemma add_empty_r r : view (add r pr_empty) = view r.
+Proof. rewrite add_view. change (view pr_empty) with spec_empty. unfold spec_add. now rewrite iadd_empty_r, spec_copy_id. Qed.
+
+(* left identity: empty + r has r's list and names; the list-all flags survive only if r is truthy *)
+Lemma dict_set_fresh_app {V} (d : list (str * V)) k v : dict_get d k = None -> dict_set d k v = d ++ [(k, v)].
+Proof. induction d as [|[k' v'] d IH]; simpl; [reflexivity|]. destruct (str_eqb k' k); [discriminate|]. intros H. now rewrite IH. Qed.
+
+Lemma str_eqb_eq a : forall b, str_eqb a b = true <-> a = b.
+Proof.
+  induction a as [|x a IH]; destruct b as [|y b]; simpl; split; intros H; try discriminate; try reflexivity.
+  - apply andb_prop in H. destruct H as [H1 H2]. apply N.eqb_eq in H1. apply IH in H2. now subst.
+  - injection H as -> ->. rewrite N.eqb_refl. simpl. now apply IH.
+Qed.
+Lemma str_eqb_refl a : str_eqb a a = true.
+Proof. now apply str_eqb_eq. Qed.
+
+Lemma sum_is_fold_add l r0 : pr_sum (r0 :: l) = Some (fold_left add l (copy r0)).
+Proof. reflexivity. Qed.
+
+Lemma sum_list_view l : forall r0,
+  av_list (view (fold_left add l r0)) = av_list (view r0) ++ flat_map (fun r => av_list (view r)) l.
+Proof.
+  induction l as [|x t IH]; intros r0; cbn [fold_left flat_map]; [now rewrite app_nil_r|].
+  rewrite IH, add_view, spec_add_list. now rewrite app_assoc.
+Qed.
+
+(* associativity fails on the list-all flags: a falsy operand is skipped together with its `_all_names` *)
+Definition mono_a : pres := pr_init (RList [TStr [117%N]]) (Some [120%N]) false true.     (* PR(['u'],'x',asList=False) *)
+Definition mono_b : pres := pr_init (RList []) (Some [120%N]) true false.                 (* PR([],'x',modal=False) : falsy, list-all x *)
+Definition mono_c : pres := pr_init (RList [TStr [118%N]]) (Some [120%N]) false true.     (* PR(['v'],'x',asList=False) *)
+Lemma add_assoc_refuted :
+  getitem_name (add (add mono_a mono_b) mono_c) [120%N] = Some (TStr [118%N]) /\
+  getitem_name (add mono_a (add mono_b mono_c)) [120%N] = Some (TPR (pr_of_list [TStr [117%N]; TStr [118%N]])).
+Proof. split; vm_compute; reflexivity. Qed.
